@@ -723,7 +723,15 @@ def compose_patterns(spec):
     p1, p2 = two()
     out["retarget"] = not (owner_ok(p1) and owner_ok(p2))
     eng = new_engine(backend)
+    begins = []
+    orig_begin = eng.backend.begin_circuit
+
+    def counting_begin(*a, **k):
+        begins.append(1)
+        return orig_begin(*a, **k)
+    eng.backend.begin_circuit = counting_begin
     out["A"] = attempt(lambda: eng.run([p1, p2]), backend)
+    out["begins"] = len(begins)
     p1, p2 = two()
     eng = new_engine(backend)
 
@@ -737,10 +745,6 @@ def compose_patterns(spec):
     s_build(pc, spec["segs"][1], cache, 1)
     eng = new_engine(backend)
     out["C"] = attempt(lambda: eng.run(pc), backend)
-    if backend == "bosonic" and not same_sig(out["A"], out["C"], TOL[backend]):
-        p2 = s_build(sf.Program(n), spec["segs"][1], {}, 1)
-        eng = new_engine(backend)
-        out["D"] = attempt(lambda: eng.run(p2), backend)      # the second segment alone, from vacuum
     return out
 
 
@@ -755,9 +759,10 @@ def compose_verdict(spec, out):
     if ab and ac:
         return None
     feat = spec.get("feat", [])
-    if "D" in out and ab and out["A"][0] == "ok" and same_sig(out["A"], out["D"], tol):
-        return ("compose:bosonic:second-segment-restarts-from-vacuum",
-                "on the bosonic backend run([p1,p2]) gives the state of p2 alone: BosonicBackend.run_prog calls init_circuit/begin_circuit for every segment")
+    if out.get("begins", 1) > 1 and ab and out["A"][0] == "ok" and out["C"][0] == "ok":
+        return ("compose:%s:second-segment-restarts-from-vacuum" % spec["backend"],
+                "run([p1,p2]) differs from run(p1+p2) and begin_circuit was called %d times during run([p1,p2]): the backend is "
+                "re-initialised for every segment (BosonicBackend.run_prog -> init_circuit -> begin_circuit)" % out["begins"])
     cls = "feedforward" if "ff-cross" in feat else "unmeasured-use" if "unmeasured-use" in feat else "plain"
     if not ab:
         return ("compose:%s:one-call-vs-two-calls" % cls, "run([p1,p2]) -> %s but run(p1);run(p2) -> %s" % (brief(out["A"]), brief(out["B"])))
@@ -942,8 +947,8 @@ def untouched_verdicts(spec):
         if not spec["fail"] and c1 is not None:
             x = attempt(lambda: new_engine(backend).run(P, args=dict(spec["args"])), backend)
             y = attempt(lambda: new_engine(backend).run(c1, args=dict(spec["args"])), backend)
-            if not same_sig(x, y, tol):
-                sig = "compile:run-of-compiled-program-raises:" + y[1] if (x[0] == "ok" and y[0] == "err") else "compile:run-of-compiled-program-differs"
+            if x[0] == "ok" and not same_sig(x, y, tol):
+                sig = "compile:run-of-compiled-program-raises:" + y[1] if y[0] == "err" else "compile:run-of-compiled-program-differs"
                 out.append((sig, "running the program -> %s, running its compiled copy -> %s" % (brief(x), brief(y))))
     raised = False
     if spec["fail"] == "unbound":
@@ -971,11 +976,13 @@ def untouched_verdicts(spec):
     if d and not (raised and d == "op.p"):
         sig = "apply:p0-not-restored-after-exception" if (d == "op.p" and a[0] == "err") else "untouched:run:" + d
         out.append((sig, "Engine.run (outcome %s) changed the user's program (%s)" % (brief(a), d)))
-    b = attempt(lambda: new_engine(backend).run(P, args=dict(spec["args"])), backend)
+    co2 = None if spec["compile_options"] is None else dict(spec["compile_options"])
+    b = attempt(lambda: new_engine(backend).run(P, args=dict(spec["args"]), compile_options=co2), backend)
     if not same_sig(a, b, tol):
         out.append(("rerun:differs" + (":after-exception" if a[0] == "err" else ""), "running the same Program object again: %s then %s (or a different state)" % (brief(a), brief(b))))
     P2 = s_build(sf.Program(n), spec["cmds"], {}, 0)
-    c = attempt(lambda: new_engine(backend).run(P2, args=dict(spec["args"])), backend)
+    co3 = None if spec["compile_options"] is None else dict(spec["compile_options"])
+    c = attempt(lambda: new_engine(backend).run(P2, args=dict(spec["args"]), compile_options=co3), backend)
     if not same_sig(b, c, tol):
         out.append(("rerun:differs-from-fresh-program" + (":after-exception" if raised or a[0] == "err" else ""),
                     "used Program object -> %s, freshly built identical program -> %s (or a different state)" % (brief(b), brief(c))))
